@@ -5,6 +5,24 @@ import json, os, subprocess
 VERIF = os.path.dirname(os.path.dirname(os.path.abspath(__file__)))
 
 CLAIMED = {
+    "C05": dict(
+        category="proof",
+        text="Coq theorems T_C05_* (coq/Properties_C05.v): for every byte string, whenever the MsgPack reader skips a value (mismatched kind under the Skip policy, nil, or an integer out of the target's range) it consumes exactly the bytes the reference decoder (MpSpec.v, written from the MessagePack spec) assigns to that one value, whatever its kind, format width and nesting depth; SkipValue never runs out of fuel. Tied to /repo by correspondence of the extracted model with both reader classes (string and stream) on all first bytes x tails and random nested documents from an independent encoder followed by further data.",
+        design_ref="DESIGN.md 4 (C05)",
+        note="partial: reader level only. The scope classes' element counters (array/object/tuple scopes: findings F12-F14) and the JSON/XML/CSV archives are not modelled; those parts of the property are not decided by this check.",
+        technique="Coq proof (agreement of SkipValueImpl with a reference decoder by induction on fuel + first-byte classification) with extracted-model vs implementation correspondence"),
+    "C06": dict(
+        category="proof",
+        text="Coq theorems T_C06_* (coq/Properties_C06.v): every WriteValue/Begin* overload of the writer model emits bytes that the reference decoder reads back as exactly the value (all 2^64 integers per type, all float/double bit patterns, any string, array/map/bin header counts), in the most compact format (thresholds proved, >= 2^32 refused), timestamp 32/64 per spec. Where the code is not compliant the full statement is refuted with the exact defect class: F09 (signed types never use the uint family) and F08 (timestamp-96 field order) — both KNOWN FINDINGS replayed on every run. Tied to /repo by byte-for-byte correspondence on both writer classes.",
+        design_ref="DESIGN.md 4 (C06)",
+        note="partial w.r.t. the property's typed layer: which overload and which declared count the archive layer uses for classes/containers/maps is not modelled yet. Memory::NativeToBigEndian is modelled as big-endian bytes (16/32-bit Reverse proved in C11; 64-bit by correspondence).",
+        technique="Coq proof (writer model vs reference decoder, arithmetic over N/Z with lia, bit-mask lemmas) with extracted-model vs implementation correspondence"),
+    "C07": dict(
+        category="proof",
+        text="Coq theorems T_C07_* (coq/Properties_C07.v): for every byte string, SkipValue and each ReadValue overload of the reader model (all integer targets incl. bool/char, nil, float, double, string, array/map/bin sizes, type probe) deliver exactly what the reference decoder reads from the same bytes — every legal format width and integer family accepted, nil and other kinds handled per the mismatch policy, out-of-range per the overflow policy — and return an error whenever the reference decoder rejects the input (truncation, 0xC1). Tied to /repo by correspondence on both reader classes: all 256 first bytes x tails x ops x policies, documents from an independent random-width encoder, truncations and single-byte corruptions; disagreements are judged by an independent Python decoder.",
+        design_ref="DESIGN.md 4 (C07)",
+        note="NOT PROVED: the agreement statement for ReadValue(CBinTimestamp&) (correspondence only; F08 known finding for timestamp 96); loading into classes/containers/maps (scope classes) is not modelled yet. Defects F10 F11 F15 found by this check were repaired by fix: commits 3e23685 91cba85 5e5e098.",
+        technique="Coq proof (reader model vs reference decoder: 41-way first-byte classification, induction on fuel) with extracted-model vs implementation correspondence"),
     "C11": dict(
         category="proof",
         text="Coq theorems T_C11_* (coq/Properties_C11.v, closed under the global context): for every list of scalar values, every ordered pair of code-unit widths, both policies, any mark and prior output the model of Transcode emits exactly the standard encoding form with zero errors and the iterator at the end; round trip; Memory::Reverse = byte swap for all 2^16 / 2^32 values; LE/BE classes emit/consume the Unicode encoding schemes. The hand-written model is tied to /repo on every run by an exhaustive correspondence: every one of the 1,112,064 scalar values through Transcode (6 width pairs x 2 policies + copy paths) and through the LE/BE Decode/Encode classes, plus random texts with prior output/marks.",
